@@ -283,6 +283,20 @@ func genC20(t *rapid.T) *Case {
 		c.Ints = []int{dropped}
 	}
 	m := BuildModel(c.Spec)
+	if c.Spec.Base != "Strict" && rapid.IntRange(0, 4).Draw(t, "linkFocus") == 0 {
+		// link-focused: rel/href/target allowed without patterns, some link options, hostile rel values
+		if c.Spec.Base == "New" {
+			c.Spec.Ops = append(c.Spec.Ops, Op{Kind: "AllowAttrs", Attrs: []string{"href", "rel", "target", "id"}, Scope: "els", Names: []string{"a", "area", "link"}, ValRe: -1},
+				Op{Kind: "AllowStandardURLs", ValRe: -1})
+			for _, k := range []string{"RequireNoReferrerOnLinks", "AddTargetBlankToFullyQualifiedLinks", "RequireNoFollowOnFullyQualifiedLinks"} {
+				if rapid.Bool().Draw(t, k) {
+					c.Spec.Ops = append(c.Spec.Ops, Op{Kind: k, B: true, ValRe: -1})
+				}
+			}
+		}
+		c.Input = BStr(genLinkElements(t))
+		return c
+	}
 	switch rapid.IntRange(0, 6).Draw(t, "inputKind") {
 	case 6:
 		c.Input = BStr(genCorpusMutation(t))
